@@ -801,57 +801,7 @@ func (iv *IV) lenBounds(x ssa.Value, b *ssa.BasicBlock, depth int) (lo, hi *big.
 }
 
 // neverWritten: no module function outside package initialisation stores into, updates or deletes from the global.
-func (iv *IV) neverWritten(g *ssa.Global) bool {
-	if iv.nwCache == nil {
-		iv.nwCache = map[*ssa.Global]bool{}
-	}
-	if v, ok := iv.nwCache[g]; ok {
-		return v
-	}
-	ok := true
-	for _, f := range iv.W.ModuleFuncs() {
-		if isInit(f) {
-			continue
-		}
-		EachInstr(f, func(in ssa.Instruction) {
-			for _, op := range operandsOf(in) {
-				if op != ssa.Value(g) {
-					continue
-				}
-				// any use of the global's address other than a plain load may write it
-				if u, isLoad := in.(*ssa.UnOp); isLoad && u.Op == token.MUL {
-					// the loaded map/slice value must itself not be written: map updates, index stores, appends
-					if refs := u.Referrers(); refs != nil {
-						for _, r := range *refs {
-							switch y := r.(type) {
-							case *ssa.MapUpdate:
-								if y.Map == ssa.Value(u) {
-									ok = false
-								}
-							case *ssa.IndexAddr:
-								if rr := y.Referrers(); rr != nil {
-									for _, q := range *rr {
-										if st, isSt := q.(*ssa.Store); isSt && st.Addr == ssa.Value(y) {
-											ok = false
-										}
-									}
-								}
-							case ssa.CallInstruction:
-								if bu, isB := y.Common().Value.(*ssa.Builtin); isB && (bu.Name() == "delete" || bu.Name() == "clear" || bu.Name() == "append") {
-									ok = false
-								}
-							}
-						}
-					}
-					continue
-				}
-				ok = false
-			}
-		})
-	}
-	iv.nwCache[g] = ok
-	return ok
-}
+func (iv *IV) neverWritten(g *ssa.Global) bool { return iv.W.GlobalNeverWritten(g) }
 
 // SymBound: v <= Base + Off (upper) or v >= Base + Off (lower), with Base an origin term string.
 type SymBound struct {
